@@ -82,3 +82,19 @@ PROPS["C14"] = {
                "thorough": "adds tridiagonal 7"},
     "out": "integer/bool/float parameters are not symbolic (one non-default value each); mpi::amg parameters; combinations varying several components at once",
 }
+
+PROPS["C05"] = {
+    "S": [{"name": "c05", "src": "c05.cpp", "shards": 16, "solver_timeout_ms": {"quick": 20000, "thorough": 90000}}],
+    "explanation": "The real solvers run with maxiter = k and NO cuts on concrete dyadic systems with dense preconditioners, the right-hand side and initial guess lying on seeded lines in one symbolic parameter t, so every coefficient is the true rational function of t. z3 proves for all t: Richardson returns x + omega P(f - A x) repeated k times (omega symbolic too); CG satisfies the Galerkin characterisation of the A-norm error minimiser (x_k - x_0 in K_k(PA, P r0) by a vanishing Gram determinant, r_k orthogonal to K_k) and agrees with a dense textbook CG; BiCGStab (both sides) agrees with a dense textbook BiCGStab on the preconditioned operator; GMRES (both sides), FGMRES and LGMRES in the first cycle satisfy the Petrov-Galerkin condition of the residual minimiser and their residual is non-increasing in k; with an exact or the identity preconditioner CG, BiCGStab, GMRES, FGMRES, LGMRES, IDR(1), BiCGStab(1) reach A x = f within n (+n/s) iterations.",
+    "bounds": {"quick": "n in {2,3} dense systems (SPD M-matrices for CG, nonsymmetric diagonally dominant otherwise), preconditioner identity / diagonal / dense, k<=n (k<=2), restart M=2, BiCGStab reference k=2 only for n=2, monotonicity for n=2; termination n=2; <=8-12 paths per case",
+               "thorough": "n<=4 for CG/BiCGStab with k<=3, termination n<=3, LGMRES left"},
+    "out": "rounding; claims are for all t on the seeded lines, not for all right-hand sides; BiCGStab(L>1), IDR(s>1) and LGMRES beyond the first cycle against an independent reference (nested radicals / degree growth: measured timeouts); complex systems; restart lengths other than 2",
+}
+
+PROPS["C09"] = {
+    "S": [{"name": "c09", "src": "c09.cpp", "shards": 16, "flags": ["-D_OPENMP=201511", "-I{ROOT}/lib/fakeomp", "-fno-access-control"]}],
+    "explanation": "The real constructors of gauss_seidel::parallel_sweep<fwd/bwd> and ilu_solve::sptr_solve<lower/upper> are executed for T threads (stand-in omp.h, no concurrency: one construction per thread id assembles the per-thread task tables of a T-thread run) on enumerated sparsity patterns, symmetric and non-symmetric, with symbolic values. Decided per pattern: every row scheduled exactly once; no two rows of one level read or write each other's unknown and the schedule respects the serial order (true and anti-dependencies) -- which discharges ALL interleavings between barriers; per-thread matrix copies equal the original rows; the REAL sweep/solve code executed level by level in two opposite thread orders yields the raw operation log of the serial sweep (bitwise) for Gauss-Seidel and a z3-proved equal value for the triangular solves (summation order differs, as the property allows). Both SpGEMM algorithms give bitwise the single-thread result for every thread id of a T-thread run (thread-private work arrays).",
+    "bounds": {"quick": "patterns: all 2x2 and 3x3 with full diagonal, 40 seeded 4x4, 12 seeded 5x5, tridiagonal 5, 3x2 grid, arrow 5; thread counts T in {2,4,5} (T > rows included); SpGEMM T in 2..4 and 17..19 on 20 seeded pairs",
+               "thorough": "200 seeded 4x4, 60 seeded 5x5, ILU schedules for all T"},
+    "out": "real concurrent execution (no thread is run concurrently; the OpenMP barrier after each level is assumed); thread counts above 19; cross-thread reductions (inner product, spectral radius, emin) and thread-seeded random vectors, which the property itself only requires to agree up to summation order; data races in '#pragma omp parallel for' loops over disjoint rows",
+}
